@@ -39,6 +39,39 @@ logger = logging.getLogger("pymoca")
 DEFAULT_MODEL_CACHE_DB = "model_txt_cache.db"
 
 
+# Escape sequences of Modelica string literals (MLS 2.4.5)
+_STRING_ESCAPES = {
+    "'": "'",
+    '"': '"',
+    "?": "?",
+    "\\": "\\",
+    "a": "\a",
+    "b": "\b",
+    "f": "\f",
+    "n": "\n",
+    "r": "\r",
+    "t": "\t",
+    "v": "\v",
+}
+
+
+def _unescape_string(s: str) -> str:
+    """Replace the escape sequences of a Modelica string literal by the characters they denote."""
+    if "\\" not in s:
+        return s
+    out = []
+    i = 0
+    while i < len(s):
+        c = s[i]
+        if c == "\\" and i + 1 < len(s) and s[i + 1] in _STRING_ESCAPES:
+            out.append(_STRING_ESCAPES[s[i + 1]])
+            i += 2
+        else:
+            out.append(c)
+            i += 1
+    return "".join(out)
+
+
 class ModelicaFile:
     def __init__(self, **kwargs):
         self.within = []  # type: List[ast.ComponentRef]
@@ -435,7 +468,7 @@ class ASTListener(ModelicaListener):
     def exitPrimary_string(self, ctx: ModelicaParser.Primary_stringContext):
         val = ctx.getText()
         assert val.startswith('"') and val.endswith('"')
-        self.ast[ctx] = ast.Primary(value=val[1:-1])
+        self.ast[ctx] = ast.Primary(value=_unescape_string(val[1:-1]))
 
     def exitPrimary_false(self, ctx: ModelicaParser.Primary_falseContext):
         self.ast[ctx] = ast.Primary(value=False)
